@@ -139,6 +139,20 @@ class Harness:
             return (yh, yl, ev, tagvec(f"E5_{k}"), tagvec(f"E3_{k}"), K)
         return stub
 
+    def error_scale_stub(self):
+        """_error_scale(y, y_high, rtol, atol): the tolerances must arrive in their own slots (the formula itself is C02.e)."""
+        _, fdef = ri.find_def(UT, "_error_scale")
+        params = [a.arg for a in fdef.args.args]
+
+        def stub(ip, args, kwargs):
+            b = dict(zip(params, args))
+            b.update(kwargs)
+            for p in ("rtol", "atol"):
+                if p in b and b[p] != sp.Symbol(p, positive=True):
+                    self.problems.append(f"_error_scale receives {b[p]} for its parameter {p}")
+            return to_obj_array([sp.Symbol("SC0", positive=True), sp.Symbol("SC1", positive=True)])
+        return stub
+
     def simple(self, name, ret):
         def stub(ip, args, kwargs):
             self.trace.append((name,) + tuple(vkey(a) for a in args))
@@ -219,7 +233,7 @@ class Harness:
         ov["_clamp_step"] = lambda ip, a, k: a[0]
         ov["_pi_accept_factor"] = lambda ip, a, k: sp.Integer(1)
         ov["_pi_reject_factor"] = lambda ip, a, k: self.reject_factor
-        ov["_error_scale"] = lambda ip, a, k: to_obj_array([sp.Symbol("SC0", positive=True), sp.Symbol("SC1", positive=True)])
+        ov["_error_scale"] = self.error_scale_stub()
         if self.dense_stub:
             for nm in ("_rk45_eval_dense", "_dop853_eval_dense", "_hermite_eval_dense", "_hermite_eval_dense_symplectic"):
                 ov[nm] = self.dense_eval(nm)
